@@ -192,7 +192,7 @@ PROPS = {
     "C09": {
         "lean_modules": ["Cachelito.Props.C09", "Cachelito.Props.C09c", "Cachelito.Props.T13", "Cachelito.Props.T17", "Cachelito.Props.T17m", "Cachelito.Props.T18", "Cachelito.Props.S01"],
         "streams": [macro_stream(nontrivial=["c09-call"]),
-                    sched_stream(nontrivial=["c09-concurrent-run"], quick=(6, 8, 80), what="L3 calls-only programs on PLAIN Result functions with an impure body (one thread's calls succeed, the others' fail for the same arguments) under the deterministic scheduler: an Err is never served from the cache, and once an Ok-storing call has returned every call started later is served without running the body (a failing call that finishes late does not disturb the stored Ok)")],
+                    sched_stream(nontrivial=["c09-concurrent-run"], quick=(6, 8, 80), what="L3 calls-only programs on PLAIN Result functions with an impure body (one thread's calls succeed, the others' fail for the same arguments) under the deterministic scheduler: an Err is never served from the cache, and once an Ok-storing call has returned every call started later is served without running the body (a failing call that finishes late does not disturb the stored Ok)"), hammer_stream()],
         "monitors": ["C09"],
         "rule": "generated call histories on real generated functions with scripted Ok/Err outcomes per call (impure body driven by the harness), both recognised Result spellings, all flavours, with and without max_memory; non-trivial = a call of a Result function without cache_if",
         "level_text": "Lean theorems about the generated wrapper: an Err outcome leaves the cache exactly as the lookup left it, an Ok is handed to the engine, the body runs iff the lookup missed, every stored value is Ok in every reachable state (no call is ever served an Err), while all outcomes for a key were Err every call runs the body, and after the first Ok (absent eviction pressure) every later call is served it. Under concurrency (C09c: interleaving model of wrapper calls with IMPURE per-call outcomes, any number of callers, any schedule, both engines): a call whose result is not stored performs exactly the micro-steps of a lookup; no stored pair and no served value is ever an Err; in the plain configuration a stored Ok stays stored and, once an Ok-storing call has returned, no later call runs the body whatever failing calls finish later; while nothing was written every failing call runs the body. Tied to the code by per-call comparison of return values, body-execution counts and cache dumps of real generated functions, and by scheduled runs of real threads on plain Result functions whose calls succeed on one thread and fail on the others.",
